@@ -362,6 +362,23 @@ func c05Programs(tier string, emit func(p pxProg)) {
 			emit(pxProg{Text: lines(strings.Join(b, "\n"), "sw t0, 128(zero)\nsw t1, 132(zero)\nsw t2, 136(zero)"), Tag: "mem"})
 		})
 	}
+	// a sweep that displaces lines, then one access to EACH line of the sweep in turn (one of them is the
+	// line being displaced / written back at that moment, whichever core holds it)
+	for si, n := range []int{17, 33} {
+		if tier != "thorough" && si == 0 {
+			continue
+		}
+		for _, kind := range []string{"W", "R"} {
+			for k := 0; k < n; k++ {
+				for _, acc := range []string{"lw t0, %d(zero)", "sw t1, %d(zero)"} {
+					if tier != "thorough" && kind == "R" && strings.HasPrefix(acc, "lw") {
+						continue
+					}
+					emit(pxProg{Text: lines(sweep(kind, n, 64, 0, 1), fmt.Sprintf(acc, 64*k), "sw t0, 5000(zero)\nsw t1, 5004(zero)\nsw t6, 5012(zero)"), Tag: "sweep-then-line"})
+				}
+			}
+		}
+	}
 	small := c05Small
 	if tier != "thorough" {
 		small = c05Small[:6]
@@ -380,7 +397,7 @@ var c05Suite = &pxSuite{
 	Programs:   c05Programs,
 	Violates:   wrongResult,
 	Nontrivial: func(ref *refResult, p pxProg) bool { return ref.MemOps >= 5 },
-	Rule:       "PX: every sequence of length <= 3 (quick) / <= 4 (thorough) over the 18-template memory alphabet (lb/lh/lw/sb/sh/sw at line-relative offsets 0, 2, 4, 60, 62, 63 of lines 0, 64 and 1024, so that every first-touch offset and same-line / other-line mixes occur) with all loaded registers stored to result slots, plus sweep macros (17 or 33 distinct lines read or written by a counted loop with stride 64 / 128: more lines than L1 has ways, more than L3 has ways; write sweep followed by read sweep) x {one access before} x {one access after} from 6 (quick) / 8 templates; sweeps that read the same 18 / 34 lines twice (evicted lines fetched again); MVP-3..8 x parallelism 1..4 (31 configurations); oracle = flat-memory reference (every loaded value via result slots, whole final memory image); non-trivial = distinct programs with at least 5 memory accesses (3 are the result stores)",
+	Rule:       "PX: every sequence of length <= 3 (quick) / <= 4 (thorough) over the 18-template memory alphabet (lb/lh/lw/sb/sh/sw at line-relative offsets 0, 2, 4, 60, 62, 63 of lines 0, 64 and 1024, so that every first-touch offset and same-line / other-line mixes occur) with all loaded registers stored to result slots, plus sweep macros (17 or 33 distinct lines read or written by a counted loop with stride 64 / 128: more lines than L1 has ways, more than L3 has ways; write sweep followed by read sweep) x {one access before} x {one access after} from 6 (quick) / 8 templates; sweeps that read the same 18 / 34 lines twice (evicted lines fetched again); a 33-line (thorough: also 17-line) sweep followed by one load / store to each line of the sweep in turn; MVP-3..8 x parallelism 1..4 (31 configurations); oracle = flat-memory reference (every loaded value via result slots, whole final memory image); non-trivial = distinct programs with at least 5 memory accesses (3 are the result stores)",
 }
 
 // ------------------------------------------------------------------ C09
